@@ -184,21 +184,29 @@ inductive Ev where
 def boomVal : Val := .str "BOOM"
 def rejVal : Val := .str "REJ"
 
-/-- enter `st` (the exit part is done): `_state`, `enter_STATE`, timer, output -/
+/-- effect of the `enter_STATE` script -/
+def enterEffect (en : Enter) (d : Dyn) : Dyn :=
+  match en with
+  | .setS k v => { d with sdata := d.sdata.set k v }
+  | _ => d
+
+/-- `_start_timer` in state `st` -/
+def armTimer (c : FsmCls) (now : Time) (st : String) (d : Dyn) : Dyn :=
+  match c.timerOf st with
+  | some (some dur, tev) => { d with timer := some (now + dur, tev) }
+  | _ => d
+
+/-- `calc_output` + `set_output` at the end of a transition -/
+def finishEnter (c : FsmCls) (st : String) (d : Dyn) : Dyn × Res :=
+  match c.calcOut st d.sdata with
+  | some o => ({ d with out := o, inited := true }, .ret (.bool true))
+  | none => (d, .handlerError)
+
+/-- enter `st` (exit part: the timer is stopped): `_state`, `enter_STATE`, timer, output -/
 def fsmEnter (c : FsmCls) (now : Time) (d : Dyn) (st : String) : Dyn × Res :=
   let d1 : Dyn := { d with fstate := st, timer := none, entered := d.entered ++ [st] }
-  match c.enterOf st with
-  | .raise => (d1, .handlerError)
-  | en =>
-    let d2 : Dyn := match en with
-      | .setS k v => { d1 with sdata := d1.sdata.set k v }
-      | _ => d1
-    let d3 : Dyn := match c.timerOf st with
-      | some (some dur, tev) => { d2 with timer := some (now + dur, tev) }
-      | _ => d2
-    match c.calcOut st d3.sdata with
-    | some o => ({ d3 with out := o, inited := true }, .ret (.bool true))
-    | none => (d3, .handlerError)
+  if c.enterOf st = .raise then (d1, .handlerError)
+  else finishEnter c st (armTimer c now st (enterEffect (c.enterOf st) d1))
 
 /-- `FSM._event` for a named event -/
 def fsmNamed (c : FsmCls) (now : Time) (d : Dyn) (e : String) (v : Option Val) : Dyn × Res :=
@@ -237,59 +245,58 @@ def counterVal (d : Dyn) : Int :=
   | .atom (.num q _) => q.num
   | _ => 0
 
+/-- the event name an FSM sees -/
+def Ev.fsmName : Ev → Option (String × Option Val)
+  | .put v => some ("put", v)
+  | .inc a => some ("inc", a)
+  | .dec a => some ("dec", a)
+  | .reset => some ("reset", none)
+  | .reconfig _ => some ("reconfig", none)
+  | .named e v => some (e, v)
+  | .goto _ => none
+
+def inputEvent (d : Dyn) : Ev → Dyn × Res
+  | .put none => (d, .paramError)
+  | .put (some x) =>
+    if x = boomVal || x = .undef then (d, .handlerError)      -- the validator raises / `set_output(UNDEF)` raises
+    else if x = rejVal then (d, .ret (.bool false))
+    else ({ d with value := x, out := x, inited := true }, .ret (.bool true))
+  | _ => (d, .unknown)
+
+def counterEvent (m : Option Int) (i : Int) (d : Dyn) : Ev → Dyn × Res
+  | .put none => (d, .paramError)
+  | .put (some x) => match intOf? (some x) with
+    | some v => counterSet m d v
+    | none => (d, .handlerError)
+  | .inc a => match intOf? a with
+    | some v => counterSet m d (counterVal d + v)
+    | none => (d, .handlerError)
+  | .dec a => match intOf? a with
+    | some v => counterSet m d (counterVal d - v)
+    | none => (d, .handlerError)
+  | .reset => counterSet m d i
+  | _ => (d, .unknown)
+
+def calEvent (cal : Val → Option Bool) (d : Dyn) : Ev → Dyn × Res
+  | .reconfig cfg => match cal cfg with
+    | some b => ({ d with value := cfg, out := .bool b, inited := true }, .ret .none)
+    | none => (d, .handlerError)
+  | _ => (d, .unknown)
+
+def fsmEvent (c : FsmCls) (now : Time) (d : Dyn) (ev : Ev) : Dyn × Res :=
+  match ev with
+  | .goto s => if c.states.contains s then fsmEnter c now d s else (d, .handlerError)
+  | ev => match ev.fsmName with
+    | some (e, v) => fsmNamed c now d e v
+    | none => (d, .unknown)
+
 /-- `SBlock.event` (without the persistence wrapper) on an initialised block -/
-def blockEvent (k : Kind) (cal : Val → Option Bool) (now : Time) (d : Dyn) : Ev → Dyn × Res
-  | .put v =>
-    match k with
-    | .input _ =>
-      match v with
-      | none => (d, .paramError)
-      | some x =>
-        if x = boomVal then (d, .handlerError)
-        else if x = rejVal then (d, .ret (.bool false))
-        else ({ d with value := x, out := x, inited := true }, .ret (.bool true))
-    | .counter m _ =>
-      match v with
-      | none => (d, .paramError)
-      | some x => match intOf? (some x) with
-        | some i => counterSet m d i
-        | none => (d, .handlerError)
-    | .cal _ => (d, .unknown)
-    | .fsm c => fsmNamed c now d "put" v
-  | .inc a =>
-    match k with
-    | .counter m _ => match intOf? a with
-      | some i => counterSet m d (counterVal d + i)
-      | none => (d, .handlerError)
-    | .fsm c => fsmNamed c now d "inc" a
-    | _ => (d, .unknown)
-  | .dec a =>
-    match k with
-    | .counter m _ => match intOf? a with
-      | some i => counterSet m d (counterVal d - i)
-      | none => (d, .handlerError)
-    | .fsm c => fsmNamed c now d "dec" a
-    | _ => (d, .unknown)
-  | .reset =>
-    match k with
-    | .counter m i => counterSet m d i
-    | .fsm c => fsmNamed c now d "reset" none
-    | _ => (d, .unknown)
-  | .reconfig cfg =>
-    match k with
-    | .cal _ => match cal cfg with
-      | some b => ({ d with value := cfg, out := .bool b, inited := true }, .ret .none)
-      | none => (d, .handlerError)
-    | .fsm c => fsmNamed c now d "reconfig" none
-    | _ => (d, .unknown)
-  | .named e v =>
-    match k with
-    | .fsm c => fsmNamed c now d e v
-    | _ => (d, .unknown)
-  | .goto s =>
-    match k with
-    | .fsm c => if c.states.contains s then fsmEnter c now { d with timer := none } s else (d, .handlerError)
-    | _ => (d, .unknown)
+def blockEvent (k : Kind) (cal : Val → Option Bool) (now : Time) (d : Dyn) (ev : Ev) : Dyn × Res :=
+  match k with
+  | .input _ => inputEvent d ev
+  | .counter m i => counterEvent m i d ev
+  | .cal _ => calEvent cal d ev
+  | .fsm c => fsmEvent c now d ev
 
 /-! ## get_state / _restore_state -/
 
@@ -354,7 +361,9 @@ def regularInit (k : Kind) (cal : Val → Option Bool) (now : Time) : Dyn × Boo
   match k with
   | .input i =>
     if i = .undef then ({}, false)
-    else ({ inited := true, value := i, out := i }, false)
+    else match inputEvent {} (.put (some i)) with      -- `init_from_value` = `event('put', value=initdef)`
+      | (d, .handlerError) => (d, true)
+      | (d, _) => (d, false)
   | .counter m i => ({ inited := true, value := .int (reduce m i), out := .int (reduce m i) }, false)
   | .cal i => match cal i with
     | some b => ({ inited := true, value := i, out := .bool b }, false)
@@ -437,9 +446,10 @@ def pass2 (cal : Val → Option Bool) (now : Time) : List Blk → List Blk × Bo
 def Circ.start (c : Circ) (cal : Val → Option Bool) (now : Time) (mode : StartMode) : Circ :=
   if c.phase != .idle then c else
   match mode with
-  | .abortedBefore => { c with now := now, phase := .stopped }
+  | .abortedBefore => { c with now := now, phase := .stopped, startOk := false }
   | .startRaises =>
-    { c with now := now, phase := .failed, ts := readTs c.store, store := cleanUnused c.store c.blocks }
+    { c with now := now, phase := .failed, startOk := false, ts := readTs c.store,
+             store := cleanUnused c.store c.blocks }
   | .ok =>
     let ts := readTs c.store
     let store := cleanUnused c.store c.blocks
@@ -485,8 +495,8 @@ def Circ.fire (c : Circ) (cal : Val → Option Bool) (i : Nat) : Option (Circ ×
     | none => none
     | some (t, tev) =>
       if t < c.now then none else
-      let b0 := { b with dyn := { b.dyn with timer := none } }
-      Circ.event { c with now := t, blocks := c.blocks.set i b0 } cal i (tevEv tev)
+      Circ.event { c with now := t, blocks := c.blocks.set i { b with dyn := { b.dyn with timer := none } } }
+        cal i (tevEv tev)
 
 /-- earliest expiry of an active timer -/
 def nextTimer (bs : List Blk) : Option Time :=
